@@ -28,6 +28,8 @@ CONTROLS = {
         ("wrong cell Intersection/Positive", E, "        return (e.wind_cnt2 > 0);", "        return (e.wind_cnt2 >= 0);", "T.closed"),
         ("Union treats EvenOdd like Positive", E, "      default:\n        return (e.wind_cnt2 == 0);\n      }\n      break;\n\n    case ClipType::Difference:",
          "      default:\n        return (e.wind_cnt2 <= 0);\n      }\n      break;\n\n    case ClipType::Difference:", "T.closed"),
+        ("TopX multiplies before dividing, in int64", E, "return ae.bot.x + static_cast<int64_t>(nearbyint(ae.dx * (currentY - ae.bot.y)));",
+         "return ae.bot.x + static_cast<int64_t>(nearbyint(double((ae.top.x - ae.bot.x) * (currentY - ae.bot.y)) / double(ae.top.y - ae.bot.y)));", "INT64.product"),
         ("same-type winding update with the wrong sign", E, "          e2.wind_cnt -= e1.wind_dx;", "          e2.wind_cnt += e1.wind_dx;", "T.wind-crossing"),
         ("inserted edge counts away from zero instead of towards it", E,
          "            //otherwise keep 'reducing' the WC by 1 (ie towards 0) ...\n            e.wind_cnt = e2->wind_cnt + e.wind_dx;",
@@ -51,11 +53,15 @@ CONTROLS = {
          "case ClipType::Union: return (!is_in_subj || !is_in_clip);", "T.open"),
         ("toggle at subject edges instead of clip edges", E, "        if (edge_c->local_min->polytype == PathType::Subject)\n          return;",
          "        if (edge_c->local_min->polytype == PathType::Clip)\n          return;", "T.open-toggle"),
+        ("a horizontal open end no longer stops the horizontal sweep", E, "if (vertex_max != horz.vertex_top || IsOpenEnd(horz))", "if (vertex_max != horz.vertex_top)", "HORZ.open-end"),
+        ("closing vertex compared with the first vertex of the first path", E, "if (!is_open && prev_v->pt == v0->pt)", "if (!is_open && prev_v->pt == vertices->pt)", "ADD.closing-vertex"),
     ],
     "C06": [
         ("clean-up union of reversed paths with the wrong fill rule (tree output)", O, "\t\t\tc.Execute(ClipType::Union, FillRule::Negative, *solution_tree);",
          "\t\t\tc.Execute(ClipType::Union, FillRule::Positive, *solution_tree);", "OFFSET.cleanup"),
         ("reversed group offset with the unreversed sign", O, "\t\tgroup_delta_ = (group.is_reversed) ? -delta : delta;", "\t\tgroup_delta_ = delta;", "OFFSET.sign"),
+        ("round-join step values computed once and carried to the next group", O, "\t\tsteps_per_rad_ = steps_per_360 / (2 * PI);\n\t}",
+         "\t\tif (steps_per_rad_ <= 0.0) steps_per_rad_ = steps_per_360 / (2 * PI);\n\t}", "LOOP"),
     ],
     "C19": [
         ("quads not normalised", H + "clipper.minkowski.h", "          if (!IsPositive(quad))\n            std::reverse(quad.begin(), quad.end());\n", "", "MINK.orientation"),
